@@ -15,8 +15,8 @@ def sh(cmd, **kw):
     return subprocess.run(cmd, shell=True, capture_output=True, text=True, **kw)
 
 
-def cargo_test(crate, filt=''):
-    r = sh('cd %s && CARGO_TARGET_DIR=%s cargo test --offline -p %s --lib %s 2>&1' % (W, T, crate, filt))
+def cargo_test(crate, filt='', target='--lib'):
+    r = sh('cd %s && CARGO_TARGET_DIR=%s cargo test --offline -p %s %s %s 2>&1' % (W, T, crate, target, filt))
     out = r.stdout
     failed = set(re.findall(r'^test (\S+)(?: - should panic)? \.\.\. FAILED', out, flags=re.M))
     m = re.search(r'test result: \w+\. (\d+) passed; (\d+) failed', out)
@@ -28,18 +28,20 @@ head = sh('git -C /repo rev-parse HEAD').stdout.strip()
 sh('git -C /repo worktree remove --force %s' % W)
 sh('git -C /repo worktree add --detach %s %s' % (W, head))
 md = open(os.path.join(seed, 'demo.md')).read()
-m = re.search(r'[Cc]opy `demo\.rs` to `([^`]+)`', md)
+m = re.search(r'[Cc]opy `demo\.rs` to `([^`]+)`', md) or re.search(r'^\s{4}(\S+\.rs)\s*$', md, flags=re.M)
 assert m, 'cannot find demo destination in demo.md'
 dest = m.group(1)
 mod = os.path.basename(dest)[:-3]
 d = os.path.dirname(dest)
-parent = d + '.rs' if not d.endswith('/src') else d + '/lib.rs'
+integration = dest.split('/')[1] == 'tests'
+parent = d + '/lib.rs' if d.endswith('/src') else (d + '/mod.rs' if os.path.exists(os.path.join(W, d, 'mod.rs')) else d + '.rs')
 crate = CRATE[dest.split('/')[0]]
 os.makedirs(os.path.join(W, d), exist_ok=True)
 shutil.copy(os.path.join(seed, 'demo.rs'), os.path.join(W, dest))
-open(os.path.join(W, parent), 'a').write('\n#[cfg(test)]\nmod %s;\n' % mod)
-res = {'id': sid, 'repo_head': head, 'demo_dest': dest, 'demo_mod_added_to': parent, 'crate': crate}
-res['demo_without_change'] = cargo_test(crate, mod)
+if not integration:
+    open(os.path.join(W, parent), 'a').write('\n#[cfg(test)]\nmod %s;\n' % mod)
+res = {'id': sid, 'repo_head': head, 'demo_dest': dest, 'demo_mod_added_to': None if integration else parent, 'crate': crate}
+res['demo_without_change'] = cargo_test(crate, '' if integration else mod, '--test ' + mod if integration else '--lib')
 ap = sh('git -C %s apply %s' % (W, os.path.join(seed, 'patch.diff')))
 res['patch_applies'] = ap.returncode == 0
 touched = sorted({CRATE[l.split('/')[1]] for l in open(os.path.join(seed, 'patch.diff')) if l.startswith('+++ b/') and l.split('/')[1] in CRATE})
@@ -47,7 +49,12 @@ res['crates_touched'] = touched
 res['with_change'] = {}
 for c in sorted(set(touched + [crate])):
     res['with_change'][c] = cargo_test(c)
-demo_fail = [t for t in res['with_change'][crate]['failed'] if mod in t]
+if integration:
+    res['with_change'][crate + ' --test ' + mod] = cargo_test(crate, '', '--test ' + mod)
+    demo_fail = res['with_change'][crate + ' --test ' + mod]['failed']
+    res['with_change'][crate + ' --test ' + mod]['failed'] = []
+else:
+    demo_fail = [t for t in res['with_change'][crate]['failed'] if mod in t]
 other_fail = [t for c in res['with_change'] for t in res['with_change'][c]['failed'] if mod not in t and t not in ALWAYS_FAIL]
 res['confirmed'] = bool(res['patch_applies'] and all(v['built'] for v in res['with_change'].values()) and res['demo_without_change']['failed_n'] == 0 and
                         (res['demo_without_change']['passed'] or 0) >= 1 and demo_fail and not other_fail)
